@@ -15,6 +15,13 @@ def intList (j : Json) : Except String (List Int) := do
   let a ← j.getArr?
   a.toList.mapM (·.getInt?)
 
+/-- Optional repeat count of a step (`["back", 300]`): the run is observed once, at its end. -/
+def stepCount (j : Json) (at_ : Nat) : Except String Nat := do
+  let a ← j.getArr?
+  match a[at_]? with
+  | some v => v.getNat?
+  | none => pure 1
+
 def historyOp (j : Json) : Except String Res := do
   let seq ← arr j "seq"
   let mut h : History.H Int := {}
@@ -23,19 +30,25 @@ def historyOp (j : Json) : Except String Res := do
   let mut moves := 0
   for s in seq do
     let (n, arg) ← stepName s
-    let op : History.Op Int ← match n with
+    -- the operations this step stands for
+    let ops : List (History.Op Int) ← match n with
       | "add" => do
         let v ← (arg.getD Json.null).getInt?
-        pure (History.Op.add v)
-      | "back" => pure .back
-      | "forward" => pure .forward
+        pure [History.Op.add v]
+      | "adds" => do
+        let first ← (arg.getD Json.null).getInt?
+        let k ← stepCount s 2
+        pure ((List.range k).map fun (i : Nat) => History.Op.add (first + Int.ofNat i))
+      | "back" => do pure (List.replicate (← stepCount s 1) .back)
+      | "forward" => do pure (List.replicate (← stepCount s 1) .forward)
       | _ => throw "bad history step"
     match n with
-    | "add" => adds := adds + 1
+    | "add" | "adds" => adds := adds + ops.length
     | _ => moves := moves + 1
-    match History.step h op with
-    | .error _ => return { model := panicJson }
-    | .ok h' => h := h'
+    for op in ops do
+      match History.step h op with
+      | .error _ => return { model := panicJson }
+      | .ok h' => h := h'
     let cur := match History.current h with
       | .ok x => Json.num x
       | .error _ => panicJson
@@ -47,14 +60,23 @@ def optLabel (o : Option Int) : Json :=
   | some v => Json.str (toString v)
   | none => Json.null
 
+def feedRow (f : Feed.F Int) (off : Int) : Json :=
+  let g := match Feed.get f off with
+    | .ok v => optLabel v
+    | .error _ => panicJson
+  Json.arr #[Json.bool (Feed.contains f off), Json.bool (Feed.isParent f off), Json.bool (Feed.isChild f off), g]
+
 def feedObserve (f : Feed.F Int) (window : Int) : Json :=
   let offs : List Int := (List.range (2 * window.toNat + 1)).map fun (i : Nat) => (Int.ofNat i) - window
-  let rows := offs.map fun off =>
-    let g := match Feed.get f off with
-      | .ok v => optLabel v
-      | .error _ => panicJson
-    Json.arr #[Json.bool (Feed.contains f off), Json.bool (Feed.isParent f off), Json.bool (Feed.isChild f off), g]
-  Json.arr #[optLabel (Feed.current f), Json.arr rows.toArray]
+  Json.arr #[optLabel (Feed.current f), Json.arr (offs.map (feedRow f)).toArray]
+
+def rangeFrom (first : Int) (k : Nat) : List Int := (List.range k).map fun (i : Nat) => first + Int.ofNat i
+
+def iterate (k : Nat) (g : α → α) (x : α) : α := Id.run do
+  let mut y := x
+  for _ in [0:k] do
+    y := g y
+  pure y
 
 def feedOp (j : Json) : Except String Res := do
   let initv ← arr j "init"
@@ -64,6 +86,10 @@ def feedOp (j : Json) : Except String Res := do
     | "create" => do
       let v ← (initv[1]?.getD Json.null).getInt?
       pure (Feed.create v)
+    | "createn" => do
+      let first ← (initv[1]?.getD Json.null).getInt?
+      let k ← (initv[2]?.getD Json.null).getNat?
+      pure (Feed.createAndAppend (rangeFrom first k))
     | _ => do
       let l ← intList (initv[1]?.getD Json.null)
       pure (Feed.createAndAppend l)
@@ -71,14 +97,20 @@ def feedOp (j : Json) : Except String Res := do
   let mut obs : Array Json := #[feedObserve f window]
   for s in seq do
     let (n, arg) ← stepName s
-    let op : Feed.Op Int ← match n with
-      | "append" => do pure (Feed.Op.append (← intList (arg.getD Json.null)))
-      | "prepend" => do pure (Feed.Op.prepend (← intList (arg.getD Json.null)))
-      | "up" => pure .up
-      | "down" => pure .down
-      | "center" => pure .center
+    if n == "probe" then
+      let offs ← intList (arg.getD Json.null)
+      obs := obs.push (Json.arr #[optLabel (Feed.current f), Json.arr (offs.map (feedRow f)).toArray])
+      continue
+    let (op, times) : Feed.Op Int × Nat ← match n with
+      | "append" => do pure (Feed.Op.append (← intList (arg.getD Json.null)), 1)
+      | "prepend" => do pure (Feed.Op.prepend (← intList (arg.getD Json.null)), 1)
+      | "appendn" => do pure (Feed.Op.append (rangeFrom (← (arg.getD Json.null).getInt?) (← stepCount s 2)), 1)
+      | "prependn" => do pure (Feed.Op.prepend (rangeFrom (← (arg.getD Json.null).getInt?) (← stepCount s 2)), 1)
+      | "up" => do pure (.up, ← stepCount s 1)
+      | "down" => do pure (.down, ← stepCount s 1)
+      | "center" => pure (.center, 1)
       | _ => throw "bad feed step"
-    f := Feed.step f op
+    f := iterate times (fun g => Feed.step g op) f
     obs := obs.push (feedObserve f window)
   pure { model := Json.arr obs, nontrivial := seq.size ≥ 2 }
 
@@ -144,30 +176,60 @@ def pagingOp (j : Json) : Except String Res := do
     | .obj kvs => pure kvs
     | _ => throw "root is not an object"
   let start ← nat j "start"
-  let reqs ← arr j "requests"
+  -- a script of steps [kind, amount, k?] ("h" advances, "again" asks the latest continuation
+  -- without advancing, "old" asks the k-th continuation handed out so far); a plain list of
+  -- amounts is a script of "h" steps
+  let script : List (String × Nat × Nat) ← match j.getObjVal? "script" with
+    | .ok (Json.arr a) => a.toList.mapM fun stp => do
+        let p ← stp.getArr?
+        let kind ← (p[0]?.getD Json.null).getStr?
+        let q ← (p[1]?.getD Json.null).getNat?
+        let k := ((p[2]?.getD Json.null).getNat?).toOption.getD 0
+        pure (kind, q, k)
+    | _ => do
+        let reqs ← arr j "requests"
+        reqs.toList.mapM fun q => do pure ("h", (← q.getNat?), 0)
   match pageOfObj kvs with
   | none => pure { model := Json.mkObj [("notcollection", true)], nontrivial := false }
   | some root =>
-    let mut cur : Coll.Page JVal JVal := root
-    let mut off := start
+    let mut conts : Array (Coll.Page JVal JVal × Nat) := #[(root, start)]
     let mut out : Array Json := #[]
-    let mut delivered : List (Coll.Out JVal) := []
     let mut pagesSeen := 0
     let mut ended := false
-    for q in reqs do
+    for (kind, n, k) in script do
       if ended then break
-      let n ← q.getNat?
+      let (cur, off) := (if kind == "old" then conts[k % conts.size]? else conts.back?).getD (root, start)
       let r := Coll.harvest loadOffline cur n off
-      delivered := delivered ++ r.out
-      pagesSeen := pagesSeen + r.pages
+      if kind == "h" then pagesSeen := pagesSeen + r.pages
       match r.cont with
       | none =>
         out := out.push (Json.arr #[Json.arr (r.out.map tagJson).toArray, true, Json.num (0 : Nat)])
-        ended := true
+        if kind == "h" then ended := true
       | some (p, o) =>
         out := out.push (Json.arr #[Json.arr (r.out.map tagJson).toArray, false, Json.num o])
-        cur := p
-        off := o
+        if kind == "h" then conts := conts.push (p, o)
+    -- the rounds that advance: the delivery the property speaks of
+    let implAll : List Json := match (j.getObjVal? "impl").toOption.getD Json.null with | Json.arr r => r.toList | _ => []
+    let advancing := (implAll.zip script).filter fun (_, (kind, _, _)) => kind == "h"
+    let impl := Json.arr (advancing.map (·.1)).toArray
+    let reqs : Array Json := (advancing.map fun (_, (_, n, _)) => Json.num n).toArray
+    -- the same continuation asked twice gives the same answer: an "again" step against the step
+    -- after it, an "old" step naming continuation k against the k-th advancing step
+    let hPos : List Nat := (List.range script.length).filter fun i => (script[i]?.map (·.1)) == some "h"
+    let sameOk := (List.range implAll.length).all fun i =>
+      match script[i]?, implAll[i]? with
+      | some ("again", q, _), some r =>
+        (match script[i + 1]?, implAll[i + 1]? with
+         | some ("h", q2, _), some r2 => q != q2 || r == r2
+         | _, _ => true)
+      | some ("old", q, k), some r =>
+        let before := (hPos.filter (· < i)).length
+        (match hPos[k % (before + 1)]? with
+         | some h => (match script[h]?, implAll[h]? with
+           | some (_, qh, _), some rh => qh != q || rh == r
+           | _, _ => true)
+         | none => true)
+      | _, _ => true
     -- predicates on the implementation's output
     let truth := (Coll.flat loadOffline 2000 root start).map fun e => tagJson (.item e)
     let it := implTags impl
@@ -212,7 +274,8 @@ def pagingOp (j : Json) : Except String Res := do
            preds := [("delivered_is_prefix_of_true_sequence", prefixOk), ("continuation_means_full_request", contOk),
                      ("refusal_only_after_consecutive_empties", refusalOk),
                      ("nothing_delivered_beyond_an_empty_run", boundedOk),
-                     ("clean_end_means_complete", completeOk)],
+                     ("clean_end_means_complete", completeOk),
+                     ("same_continuation_same_answer", sameOk)],
            nontrivial := pagesSeen ≥ 3 }
 
 /-! ### C11: splicer -/
@@ -230,10 +293,15 @@ def spliceOp (j : Json) : Except String Res := do
     let items ← its.toList.mapM fun it => do
       let p ← it.getArr?
       let l ← (p[0]?.getD Json.null).getStr?
-      -- a missing timestamp is Go's zero time, earlier than everything generated
-      let t : Int := match p[1]? with
+      -- an instant in nanoseconds relative to 2020-01-01T00:00:00Z (seconds, then optional
+      -- nanoseconds; a zone, if given, does not change the instant); a missing timestamp is
+      -- Go's zero time (year 1), which generated instants may precede
+      let nsec : Int := match p[2]? with
         | some (Json.num n) => n.mantissa
-        | _ => -100000000000
+        | _ => 0
+      let t : Int := match p[1]? with
+        | some (Json.num n) => n.mantissa * 1000000000 + nsec
+        | _ => (-62135596800 - 1577836800) * 1000000000
       pure (⟨l.toList, t⟩ : FItem)
     pure { basepoint := 0,
            page := if items.isEmpty && nilEmpty == 1 then none else some items,
@@ -245,6 +313,8 @@ def spliceOp (j : Json) : Except String Res := do
     else ((items.drop st).take q, some items, st + q)
   let script ← arr j "script"
   let mut cur := sources
+  -- every continuation handed out so far (0 = the feed as built); an "old" step asks one again
+  let mut conts : Array (List (Splicer.Source (List FItem) FItem)) := #[sources]
   let mut out : Array Json := #[]
   let mut ended := false
   let mut total := 0
@@ -254,13 +324,19 @@ def spliceOp (j : Json) : Except String Res := do
     let kind ← (p[0]?.getD Json.null).getStr?
     let q ← (p[1]?.getD Json.null).getNat?
     let st ← (p[2]?.getD Json.null).getNat?
-    let r := Splicer.harvest hv (fun (i : FItem) => i.ts) cur q st
+    let from_ ← if kind == "old" then do
+        let k ← (p[3]?.getD Json.null).getNat?
+        pure (conts[k % conts.size]?.getD cur)
+      else pure cur
+    let r := Splicer.harvest hv (fun (i : FItem) => i.ts) from_ q st
     total := total + r.1.length
     out := out.push (Json.arr #[Json.arr (r.1.map fun i => js i.label).toArray, Json.bool r.2.isNone])
     if kind == "h" then
       match r.2 with
       | none => ended := true
-      | some s' => cur := s'
+      | some s' =>
+        cur := s'
+        conts := conts.push s'
   -- predicates on the implementation's output: fewer items than asked only with an empty
   -- continuation; no item twice within the rounds that advance the feed
   let impl := (j.getObjVal? "impl").toOption.getD Json.null
@@ -280,9 +356,29 @@ def spliceOp (j : Json) : Except String Res := do
   let idx := List.range (rounds.length - 1)
   let againOk := idx.all fun i =>
     match stepsInfo[i]?, stepsInfo[i + 1]?, rounds[i]?, rounds[i + 1]? with
-    | some (k1, q1, s1), some (_, q2, s2), some r1, some r2 =>
-      !(k1 == "again" && q1 == q2 && s1 == s2) || r1 == r2
+    | some (k1, q1, s1), some (k2, q2, s2), some r1, some r2 =>
+      !(k1 == "again" && k2 != "old" && q1 == q2 && s1 == s2) || r1 == r2
     | _, _, _, _ => true
+  -- ... also when the position is an older continuation asked again after newer ones exist: the
+  -- k-th advancing step was asked of continuation k, so an "old" step naming k with the same
+  -- request gets the same answer
+  let oldKs : List Nat := script.toList.map fun stp => match stp with
+    | Json.arr p => ((p[3]?.getD Json.null).getNat?).toOption.getD 0
+    | _ => 0
+  let hIdx : List Nat := (List.range rounds.length).filter fun i => (stepsInfo[i]?.map (·.1)) == some "h"
+  let oldOk := (List.range rounds.length).all fun i =>
+    match stepsInfo[i]?, oldKs[i]?, rounds[i]? with
+    | some ("old", q, st), some k, some r =>
+      let before := (hIdx.filter (· < i)).length
+      match hIdx[k % (before + 1)]? with
+      | some h => if h < i then
+          (match stepsInfo[h]?, rounds[h]? with
+           | some (_, qh, sth), some rh => !(qh == q && sth == st) || rh == r
+           | _, _ => true)
+        else true
+      | none => true
+    | _, _, _ => true
+  let againOk := againOk && oldOk
   -- the feed ends only when every item of every source has been delivered (scripts that never
   -- skip: every advancing step starts at offset 0)
   let noSkips := stepsInfo.all fun (k, _, st) => k != "h" || st == 0
